@@ -28,7 +28,7 @@ def str_hint(s):
     except ValueError:
         pass
     try:
-        return [2, specgen.f_bits(float(s))]      # e.g. '1e3' for float(value) in DTime/allow_float
+        return [4, specgen.f_bits(float(s))]      # e.g. '1e3': float(value) works (DTime/allow_float) but convert_numeric keeps the string
     except ValueError:
         return []
 
